@@ -12,7 +12,8 @@
        by construction (the fresh parameter [z] of a convolution does not occur in the two lambdas;
        the parameter [x] of the lambda another lambda is moved into does not occur in the moved one);
      - the value of a query depends only on the bindings of names that occur in it (weakening,
-       shadowing, exchange) - the facts that make renaming parameters to fresh names harmless;
+       shadowing, exchange), and alpha-renaming of lambda parameters (make_args_unique, which the
+       hygiene of the algorithm rests on) preserves meaning for every expression;
      - the First push-through is sound in the direction "rewritten has a value => original has the
        same value", and in the other direction when the pushed function is defined on every element
        (LINQ's Select is lazy; the list semantics of [eval] is not).
@@ -22,9 +23,9 @@
            simp fuel [[]] [] c e = Ok (e', c') -> eval B ops E e = Some v -> eval B ops E e' = Some v.
      i.e. the composition of the rules by the fuel-indexed traversal with its substitution stack.
      That composition is covered by the model/code correspondence and the CPython oracle only. *)
-From FA.Base Require Import PyAst Value Eval Traverse.
+From FA.Base Require Import PyAst Value Eval Traverse Names.
 From FA.Model Require Import Simplify.
-From FA.Proofs Require Import Refine EvalAgree SimplifyFacts SimplifySem.
+From FA.Proofs Require Import Refine EvalAgree SimplifyFacts SimplifySem RenameSem.
 
 Section C02.
   Variable B : backend.
@@ -38,6 +39,23 @@ Section C02.
   Theorem value_depends_only_on_occurring_names : forall e E E',
     (forall y, occurs y e = true -> lookup y E = lookup y E') -> ev E e = ev E' e.
   Proof. intros e E E' H. apply eval_agree. exact H. Qed.
+
+  (* alpha-renaming (replace_args of make_args_unique, any renaming list, any expression, nested
+     lambdas and comprehension targets included): if the renaming moves names only onto names the
+     expression does not mention, injectively, and never moves a callee name, the renamed
+     expression has the same value in the correspondingly renamed environment *)
+  Theorem renaming_preserves_meaning : forall m e E E',
+    good m e -> rel m e E E' -> refines (ev E e) (ev E' (rename m e)).
+  Proof. exact (rename_refines B ops). Qed.
+
+  (* make_args_unique on an operator lambda yields the same function *)
+  Theorem fresh_parameter_is_the_same_function : forall x b c v E,
+    mentions (arg_name c) b = false -> is_callee x b = false ->
+    match make_args_unique [x] b c with
+    | (Lambda [x'] b', _) => refines (ev ((x, v) :: E) b) (ev ((x', v) :: E) b')
+    | _ => False
+    end.
+  Proof. exact (make_args_unique_sound1 B ops). Qed.
 
   Theorem Select_of_Select_sound : forall E s x fb y gb z,
     occurs z fb = false -> occurs z gb = false ->
@@ -108,6 +126,8 @@ End C02.
 
 Print Assumptions names_that_do_not_occur_do_not_matter.
 Print Assumptions value_depends_only_on_occurring_names.
+Print Assumptions renaming_preserves_meaning.
+Print Assumptions fresh_parameter_is_the_same_function.
 Print Assumptions Select_of_Select_sound.
 Print Assumptions SelectMany_of_Select_sound.
 Print Assumptions Where_of_Select_sound.
